@@ -61,6 +61,16 @@ type hid struct {
 	Q int
 }
 
+// Alt occurs only as the dynamic type of a value held by an interface-typed slot: it has the field names of Leaf
+// and Inner at other positions (and X where Leaf has A), so that a source path below an interface resolves to
+// another field index when the slot holds an Alt in one request and a Leaf / Inner in the next
+type Alt struct {
+	X int
+	A int
+	B string
+	Y string
+}
+
 // EmbU is used as a successor input type only: Q is promoted through an embedded pointer to an unexported struct
 // type, which reflection cannot instantiate (rejected at compile time for target paths since F-C15k)
 type EmbU struct {
@@ -70,7 +80,7 @@ type EmbU struct {
 
 var _ = Inner{}.u
 
-var structNames = []string{"Leaf", "Inner", "Outer", "Emb", "hid", "EmbU"}
+var structNames = []string{"Leaf", "Inner", "Outer", "Emb", "hid", "EmbU", "Alt"}
 var structTypes = map[string]reflect.Type{
 	"Leaf":  reflect.TypeOf(Leaf{}),
 	"Inner": reflect.TypeOf(Inner{}),
@@ -78,6 +88,7 @@ var structTypes = map[string]reflect.Type{
 	"Emb":   reflect.TypeOf(Emb{}),
 	"hid":   reflect.TypeOf(hid{}),
 	"EmbU":  reflect.TypeOf(EmbU{}),
+	"Alt":   reflect.TypeOf(Alt{}),
 }
 
 func structID(name string) int {
